@@ -203,7 +203,7 @@ func main() {
 	r.Cases("pad-roundtrip", r.N(rtCombos+40000, rtCombos+3000000), opt, padRoundTripCase)
 	r.Cases("bad-key", r.N(20*len(badKeySizes), 1000*len(badKeySizes)), opt, badKeyCase)
 	r.CasesProc("cold-start", 16, ev.Opt{Procs: 16}, coldCase)
-	r.Cases("big", r.N(3*len(bigSizes), 600), ev.Opt{Workers: 8, MaxCaseSeconds: 300}, bigCase)
+	r.Cases("big", r.N(len(bigOffsets)*len(bigSizes), 6*len(bigOffsets)*len(bigSizes)), ev.Opt{Workers: 8, MaxCaseSeconds: 300}, bigCase)
 	r.Cases("arena", r.N(30000, 1000000), opt, arenaCase)
 	r.Cases("buffer-reuse", r.N(20000, 600000), opt, reuseCase)
 
@@ -252,6 +252,19 @@ func main() {
 		"arena_cases":                                    10000,
 		"cold_start_cases":                               16,
 		"big_cases":                                      30,
+		"key_class/hex-lower":                            5000,
+		"key_class/hex-upper":                            5000,
+		"key_class/hex-mixed":                            5000,
+		"key_class/base64":                               5000,
+		"key_class/printable":                            5000,
+		"key_class/zero":                                 5000,
+		"badkey_class/hex-lower":                         80,
+		"badkey_class/hex-upper":                         80,
+		"badkey_class/base64":                            80,
+		"big_offset/-16":                                 10,
+		"big_offset/-1":                                  10,
+		"big_offset/+0":                                  10,
+		"big_offset/+17":                                 10,
 		"big_cbc_damaged_padding_rejected":               15,
 		"big_cbc_illegal_length_rejected":                30,
 		"big_gcm_roundtrips":                             30,
